@@ -1155,5 +1155,65 @@ theorem loadFacts_congr (w : Bounds α) :
 
 end Load
 
+/-! ### folds of commuting idempotent steps depend only on the SET of inputs -/
+
+section FoldSet
+variable {β γ : Type}
+
+/-- an element that occurs in `l` is absorbed when applied before `l` -/
+theorem foldl_absorb (f : β → γ → β) (S : γ → Prop)
+    (hcomm : ∀ x y, S x → S y → ∀ z, f (f z x) y = f (f z y) x)
+    (hidem : ∀ x, S x → ∀ z, f (f z x) x = f z x) (x : γ) (hx : S x) :
+    ∀ (l : List γ), (∀ y ∈ l, S y) → x ∈ l → ∀ z, l.foldl f (f z x) = l.foldl f z
+  | [], _, h, _ => by cases h
+  | y :: l, hS, h, z => by
+    rw [List.foldl_cons, List.foldl_cons]
+    by_cases hyx : y = x
+    · subst hyx; rw [hidem y hx]
+    · have hxl : x ∈ l := by
+        rcases List.mem_cons.mp h with e | e
+        · exact absurd e.symm hyx
+        · exact e
+      rw [hcomm x y hx (hS y List.mem_cons_self),
+        foldl_absorb f S hcomm hidem x hx l (fun y' hy' => hS y' (List.mem_cons_of_mem _ hy')) hxl]
+
+theorem foldl_append_absorb (f : β → γ → β) (S : γ → Prop)
+    (hcomm : ∀ x y, S x → S y → ∀ z, f (f z x) y = f (f z y) x)
+    (hidem : ∀ x, S x → ∀ z, f (f z x) x = f z x) (z : β) :
+    ∀ (l' l : List γ), (∀ y ∈ l, S y) → (∀ y ∈ l', y ∈ l) → (l ++ l').foldl f z = l.foldl f z
+  | [], l, _, _ => by rw [List.append_nil]
+  | x :: l', l, hS, hsub => by
+    have hx : x ∈ l := hsub x List.mem_cons_self
+    have hS' : ∀ y ∈ l ++ [x], S y := by
+      intro y hy
+      rcases List.mem_append.mp hy with h | h
+      · exact hS y h
+      · rw [List.mem_singleton.mp h]; exact hS x hx
+    have e : l ++ x :: l' = (l ++ [x]) ++ l' := by simp
+    rw [e, foldl_append_absorb f S hcomm hidem z l' (l ++ [x]) hS'
+      (fun y hy => List.mem_append_left _ (hsub y (List.mem_cons_of_mem _ hy)))]
+    have hp : (l ++ [x]).Perm (x :: l) := List.perm_append_singleton x l
+    rw [hp.foldl_eq' (fun a ha b hb z => hcomm a b (hS' a ha) (hS' b hb) z) z, List.foldl_cons,
+      foldl_absorb f S hcomm hidem x (hS x hx) l hS hx]
+
+/-- a fold of pairwise commuting, idempotent steps gives the same result on any two lists with
+the same set of elements (order and multiplicity are irrelevant) -/
+theorem foldl_eq_of_mem_iff (f : β → γ → β) (S : γ → Prop)
+    (hcomm : ∀ x y, S x → S y → ∀ z, f (f z x) y = f (f z y) x)
+    (hidem : ∀ x, S x → ∀ z, f (f z x) x = f z x) {l l' : List γ}
+    (hS : ∀ y ∈ l, S y) (hset : ∀ y, y ∈ l ↔ y ∈ l') (z : β) : l.foldl f z = l'.foldl f z := by
+  have hS' : ∀ y ∈ l', S y := fun y hy => hS y ((hset y).mpr hy)
+  rw [← foldl_append_absorb f S hcomm hidem z l' l hS (fun y hy => (hset y).mpr hy),
+    ← foldl_append_absorb f S hcomm hidem z l l' hS' (fun y hy => (hset y).mp hy)]
+  have hSa : ∀ y ∈ l ++ l', S y := by
+    intro y hy
+    rcases List.mem_append.mp hy with h | h
+    · exact hS y h
+    · exact hS' y h
+  exact (List.perm_append_comm (l₁ := l) (l₂ := l')).foldl_eq'
+    (fun a ha b hb z => hcomm a b (hSa a ha) (hSa b hb) z) z
+
+end FoldSet
+
 end Join
 end LNN
